@@ -80,16 +80,20 @@ func (r *runner) violate(v *Violation, path string) {
 	r.res.Violations = append(r.res.Violations, v)
 }
 
-func imgKey(path string, idx int) string {
-	if path == "" {
-		return fmt.Sprint(idx)
+func imgKey(path string, im *Image) string {
+	k := fmt.Sprint(im.Idx)
+	if im.Sub >= 0 {
+		k += "." + fmt.Sprint(im.Sub)
 	}
-	return path + "/" + fmt.Sprint(idx)
+	if path == "" {
+		return k
+	}
+	return path + "/" + k
 }
 
 // runWorld mounts a world (empty, or on a crash image), runs recovery if it
 // is an image, runs the plan's statements and then explores captured images.
-func (r *runner) runWorld(p *Plan, m *Model, img *Image, path string, chain []map[string]string) {
+func (r *runner) runWorld(p *Plan, m *Model, img *Image, path string, chain []map[string]string, selChain ...ImageSel) {
 	if img == nil {
 		r.env.Journal("|main")
 		if cls, ok := r.env.Fatal["|main"]; ok {
@@ -115,7 +119,7 @@ func (r *runner) runWorld(p *Plan, m *Model, img *Image, path string, chain []ma
 		return
 	}
 	w.mon = monitorsFor(r.plan.Prop)
-	t := &timeline{r: r, w: w, m: m, plan: p, path: path, chain: chain}
+	t := &timeline{r: r, w: w, m: m, plan: p, path: path, chain: chain, selChain: selChain}
 	func() {
 		defer func() {
 			// harness bug guard: never leave a world mounted
@@ -169,7 +173,9 @@ func (r *runner) runWorld(p *Plan, m *Model, img *Image, path string, chain []ma
 		if img != nil {
 			sub = append(sub, img.Info)
 		}
-		r.runWorld(cont, nil, im, imgKey(path, im.Idx), sub)
+		sc := append(append([]ImageSel(nil), selChain...), im.Sel)
+		sc[len(sc)-1].Cont = nil
+		r.runWorld(cont, nil, im, imgKey(path, im), sub, sc...)
 		if r.res.Harness != "" {
 			return
 		}
@@ -204,6 +210,7 @@ type timeline struct {
 	stop  bool
 	img   *Image
 	chain []map[string]string // infos of ancestor images (own image excluded)
+	selChain []ImageSel       // resolved selectors of the images on the path (own image included)
 	phase string
 	unmodelled bool // a raw statement the model cannot follow may have changed the database
 	// probes for the shape fingerprint
@@ -219,7 +226,7 @@ func (t *timeline) probe(p string) {
 }
 
 func (t *timeline) violate(oracle, detail string, feat map[string]string, stmt int) {
-	v := &Violation{Prop: t.r.plan.Prop, Oracle: oracle, Features: feat, Detail: detail, StmtIdx: stmt, Chain: t.chain}
+	v := &Violation{Prop: t.r.plan.Prop, Oracle: oracle, Features: feat, Detail: detail, StmtIdx: stmt, Chain: t.chain, SelChain: t.selChain}
 	if t.img != nil {
 		if v.Features == nil {
 			v.Features = map[string]string{}
